@@ -26,7 +26,6 @@ ERRNOS = ['ENOSPC', 'ENOSPC', 'ENOSPC', 'EDQUOT', 'EIO', 'EMFILE', 'ENFILE', 'ER
 SWEEP_BASES = 4
 SWEEP_NTH = 44
 CL = casegen.PREFIX['cleanup']
-LAYOUT_PATHS = ('act', 'tmp', 'result', 'internal', 'internal/tmp', 'internal/log')
 PROBES = ['disk_plan', 'diskfault_fired', 'diskfault_not_reached', 'disk_while_building_sandbox', 'disk_in_setup_or_act',
           'disk_in_assertions', 'disk_in_cleanup', 'disk_op_mkdir', 'disk_op_create', 'disk_op_tmpfile', 'disk_op_write', 'disk_op_close',
           'disk_reported_hard_error', 'disk_reported_internal_error', 'disk_keep', 'disk_act_mode']
@@ -152,11 +151,11 @@ def observable(hist):
 
 
 def building_sandbox(hist) -> bool:
+    """Did the fault strike while the directory structure of the sandbox was being built?  Judged by where the process
+    stood, not by names: the sandbox directory had been asked for, and Exactly had not yet moved into it (execution
+    "starts with act/ as the current directory") - whatever directories a sandbox consists of."""
     d = hist['disk']
-    if not d['fired'] or d['op'] != 'mkdir':
-        return False
-    p = d['path']
-    return any(p.endswith('$SBX1/' + x) for x in LAYOUT_PATHS)
+    return bool(d['fired']) and hist['n_sandboxes'] > 0 and not d.get('in_sandbox')
 
 
 def _where(hist):
@@ -192,9 +191,11 @@ def oracle_c04(plan, hist):
         V.append({'rule': 'C04.' + rule, 'expected': expected, 'observed': observed})
 
     d = hist['disk']
-    if not d['fired']:
-        return c04.oracle_plain(plan, hist)
     res = hist['result']
+    if not d['fired'] or (hist['obs'] == hist['twin']['obs'] and res['exit'] == hist['twin']['exit']):
+        # not reached - or without any consequence (tempfile falls back on a named file when O_TMPFILE fails; a mkdir
+        # of parents that is repeated): an ordinary run
+        return c04.oracle_plain(plan, hist)
     if res.get('hang') or res.get('escape') or res.get('exception'):
         bad('disk.returns', 'execute returns', {k: res.get(k) for k in ('hang', 'escape', 'exception')})
         return V
@@ -241,6 +242,8 @@ def oracle_c01(plan, hist):
             bad('disk.same_plan_same_history', {'obs': t['obs'], 'exit': t['exit']}, {'obs': obs, 'exit': res['exit']})
         return V
     invisible = obs == t['obs'] and res['exit'] == t['exit']
+    if invisible:
+        return V  # (e.g. tempfile falls back on a named file when O_TMPFILE fails: the fault has no consequence to judge)
     before_execution = hist['n_sandboxes'] == 0
     if before_execution:
         # the fault struck while the case was read (preprocessor output, ...): no step of the case is being executed yet;
